@@ -343,7 +343,7 @@ func setBig(v reflect.Value, x *big.Int) {
 // ---------------------------------------------------------------- combinators
 
 func sectionCombinators() {
-	for k := 0; k < R.N(200, 4000); k++ {
+	for k := 0; k < R.N(200, 40000); k++ {
 		rng := R.Rng("comb", k)
 		x := tlb.Uint7(rng.Intn(128))
 		y := tlb.Int33(int64(rng.Uint64()) >> 31)
@@ -675,7 +675,7 @@ func (s stateInit) ref() ([]bool, []*cell.Cell) {
 }
 
 func sectionStructures() {
-	n := R.N(2000, 50000)
+	n := R.N(2000, 600000)
 	for k := 0; k < n; k++ {
 		rng := R.Rng("struct", k)
 		// MsgAddress alone: every kind
@@ -846,7 +846,7 @@ func genVmVal(rng *mon.Rng) vmVal {
 }
 
 func sectionVmStack() {
-	n := R.N(400, 10000)
+	n := R.N(400, 100000)
 	for k := 0; k < n; k++ {
 		rng := R.Rng("vm", k)
 		// single values
